@@ -135,7 +135,40 @@ func c10Mag(r *fw.Rand, exp10lo, exp10hi int) float64 {
 func c10Near(c *fw.Ctx, idx int) {
 	r := c.R
 	var o, e [2]float64
-	switch r.Intn(6) {
+	diag := false
+	switch r.Intn(7) {
+	case 6:
+		// the segment runs along a diagonal or an axis to within a few units in the
+		// last place: e = o + (n, n+j) ulps (or (n, j), (j, n)) with n up to 2^54 and
+		// j in -2..2, so that against a third point a few ulps from an end point the
+		// determinant is a very small integer in units of ulp^2, although the
+		// segment is long and may cross zero
+		v := gen.Float(r, gen.Moderate)
+		if r.Bool() {
+			v = []float64{-1.5, 1.5, -1, 3, -0.75, 1e6 + 0.5, -12345.678}[r.Intn(7)]
+		}
+		u := math.Abs(gen.NextAfterN(v, 1) - v)
+		n := float64(r.Uint64() % (1 << uint(r.Range(40, 54))))
+		if r.Bool() {
+			n = -n
+		}
+		j := float64(r.Range(-2, 2))
+		o = [2]float64{v, v}
+		if r.Chance(1, 3) {
+			o[1] = gen.NextAfterN(v, r.Range(-5, 5))
+		}
+		switch r.Intn(4) {
+		case 0:
+			e = [2]float64{o[0] + n*u, o[1] + j*u}
+		case 1:
+			e = [2]float64{o[0] + j*u, o[1] + n*u}
+		case 2:
+			e = [2]float64{o[0] + n*u, o[1] - (n+j)*u}
+		default:
+			e = [2]float64{o[0] + n*u, o[1] + (n+j)*u}
+		}
+		diag = true
+		c.Count("segments_within_ulps_of_a_diagonal_or_axis")
 	case 0: // small integers
 		o = [2]float64{float64(r.Range(-50, 50)), float64(r.Range(-50, 50))}
 		e = [2]float64{float64(r.Range(-50, 50)), float64(r.Range(-50, 50))}
@@ -162,6 +195,9 @@ func c10Near(c *fw.Ctx, idx int) {
 	if r.Chance(1, 4) {
 		t = float64(r.Range(-4, 8)) / 4
 	}
+	if diag {
+		t = float64(r.Intn(2))
+	}
 	px := o[0] + t*(e[0]-o[0])
 	py := o[1] + t*(e[1]-o[1])
 	for _, v := range []float64{o[0], o[1], e[0], e[1], px, py} {
@@ -179,6 +215,18 @@ func c10Near(c *fw.Ctx, idx int) {
 			}
 			c10Check(c, [3][2]float64{o, e, p}, "near-collinear")
 		}
+	}
+	// the base point again, and right after it the point with one mantissa bit of x
+	// and one of y flipped (bits 0..12): two questions that differ in two bits
+	for k := 0; k < 12; k++ {
+		a, b := uint(r.Intn(13)), uint(r.Intn(13))
+		p := [2]float64{math.Float64frombits(math.Float64bits(px) ^ 1<<a), math.Float64frombits(math.Float64bits(py) ^ 1<<b)}
+		if p[0] != 0 && math.Abs(p[0]) < 1e-100 || p[1] != 0 && math.Abs(p[1]) < 1e-100 || math.IsNaN(p[0]) || math.IsNaN(p[1]) {
+			continue
+		}
+		c10Check(c, [3][2]float64{o, e, {px, py}}, "near-collinear")
+		c10Check(c, [3][2]float64{o, e, p}, "near-collinear-bit-flips")
+		c.Count("bit_flip_neighbours_asked_right_after_the_base_point")
 	}
 	if c.WantSample() {
 		c.Sample(map[string]any{"o": fw.Fs(o[:]), "e": fw.Fs(e[:]), "p_base": fw.Fs([]float64{px, py}), "neighbours": "x,y each moved by -3..3 ulps"})
@@ -317,7 +365,12 @@ func c10Big(c *fw.Ctx, idx int) {
 // exactly - while the exact determinant is -2..2
 func c10Lattice26(c *fw.Ctx, idx int) {
 	r := c.R
-	const R = 1<<26 - 1
+	// the square's half-width: 2^26 half of the time, otherwise any power of two from 2^10
+	kk := 26
+	if r.Bool() {
+		kk = r.Range(10, 26)
+	}
+	R := int64(1)<<uint(kk) - 1
 	ord := func() int64 {
 		switch r.Intn(4) {
 		case 0:
@@ -325,13 +378,13 @@ func c10Lattice26(c *fw.Ctx, idx int) {
 		case 1:
 			return -R + int64(r.Intn(16))
 		case 2:
-			return int64(r.Range(-R, R))
+			return int64(r.Range(int(-R), int(R)))
 		}
 		s := int64(1)
 		if r.Bool() {
 			s = -1
 		}
-		return s * (int64(1)<<uint(r.Range(20, 25)) + int64(r.Range(-3, 3)))
+		return s * (int64(1)<<uint(r.Range(kk-6, kk-1)) + int64(r.Range(-3, 3)))
 	}
 	for try := 0; try < 40; try++ {
 		ox, oy, ex, ey := ord(), ord(), ord(), ord()
@@ -361,6 +414,7 @@ func c10Lattice26(c *fw.Ctx, idx int) {
 				if abs64(dx) >= 1<<26 || abs64(dy) >= 1<<26 {
 					c.Count("lattice26_edge_vector_over_2^26")
 				}
+				c.Count(fmt.Sprintf("lattice_square_half_width_2^%d", kk))
 				c10Check(c, [3][2]float64{{float64(ox), float64(oy)}, {float64(ex), float64(ey)}, {float64(px), float64(py)}}, "lattice26")
 				if c.WantSample() {
 					c.Sample(c.Input())
